@@ -16,7 +16,7 @@ import os
 
 from vlib.common import NCPU, Run, Shard, describe_exc, rng, run_shards
 
-THROTTLE = 1.0 / 50
+from vlib.libconst import throttle_gap
 
 
 def make_handler_class():
@@ -146,6 +146,7 @@ def engine_scenario(sh: Shard, seed, idx):
         else:
             sh.count("fifo_batches_matched")
         gaps = [b[0] - a[0] for a, b in zip(out, out[1:])]
+        THROTTLE = throttle_gap()
         if gaps and min(gaps) < THROTTLE - 1e-6:
             sh.violation("C20:throttle", f"two sends {min(gaps)*1000:.2f} ms apart (throttle is {THROTTLE*1000:.0f} ms)", dict(wit, min_gap=min(gaps)))
         if gaps:
